@@ -58,6 +58,23 @@ def run(ctx, replay_case):
         k, e, g = suites.first_diff(res["model"][i], res["impl"][i])
         ctx.violations.append({"kind": "correspondence", "what": "model (generated tables) and implementation disagree",
                                "replay": {"type": cases[i][0], "hex": cases[i][2].hex(), "model": e, "impl": g}})
+    # 2b. whole messages: for every command code a command and a response as the pinned layout dictates them — handle and
+    #     parameter areas picked by the code, and (where a session asks for parameter encryption) the synthesized layout:
+    #     only the leading TPM2B opaque, every later parameter as tabled (seed C20e: `encrypted()` replaced every parameter
+    #     of the leading parameter's type)
+    import decsuite as ds
+    _, _M, mcases = ds.wellformed(rnd, ctx.tier, structs=False, messages=True, streams=False, per_cc=1 if ctx.tier == "quick" else 4)
+    mimpl = core.run_impl([c.op("S") for c in mcases])
+    msg_bad = 0
+    for c, im in zip(mcases, mimpl):
+        want_r = f"R done obj={gen.obj_str(c.val)}"
+        if im[-1] != want_r or any(l.startswith("W ") for l in im):
+            msg_bad += 1
+            if msg_bad <= 3:
+                ctx.violations.append({"kind": "concrete", "signature": f"decode-msg:{c.tname}:{c.cc}:{int(bool(c.enc))}",
+                                       "what": f"a pinned-well-formed {c.tname} (command code {c.meta.get('cc')}, parameter encryption "
+                                               f"{bool(c.meta.get('decrypt') or c.meta.get('encrypt'))}) no longer decodes as the pinned layout dictates",
+                                       "replay": {**c.replay("S"), "expected": want_r[:600], "observed": im[-1][:600]}})
     # 3. the pinned and regenerated JSON differ -> named entries (the proof c20_pinned breaks on these)
     if ctx.layout_diff and not ctx.violations:
         sec, key = ctx.layout_diff[0]
@@ -70,14 +87,14 @@ def run(ctx, replay_case):
                                           "all_differing": ctx.layout_diff[:40]}})
     kinds = collections.Counter(L["types"][k]["kind"] for k, _, _ in cases)
     ctx.stats.update({
-        "evaluations": len(cases) + 1,
+        "evaluations": len(cases) + len(mcases) + 1,
         "distinct_nontrivial": len({(k, b) for k, _, b in cases if len(b) > 0}),
         "rule": "G1: conforming value trees per the pinned layout for every non-union type (random + every selector "
                 "boundary value), encoded by the Lean spec over Pinned, decoded by the implementation; distinct = "
                 "distinct (type, encoding) with a non-empty encoding; plus one full evaluation of the coherence clauses in Python",
         "samples": [{"type": k, "hex": b.hex()[:80]} for k, _, b in cases[:: max(1, len(cases) // 6)]][:6],
         "exhaustive": True,
-        "correspondence": {"ops": len(cases), "model_vs_impl_disagreements": len(res["corr"]),
+        "correspondence": {"ops": len(cases), "message_ops": len(mcases), "message_monitor_failures": msg_bad, "model_vs_impl_disagreements": len(res["corr"]),
                            "impl_vs_pinned_spec_disagreements": len(res["monitor"])},
         "distribution": {"types_covered": len({k for k, _, _ in cases}), "types_without_value": novalue,
                          "by_kind": dict(kinds), "coherence_failures": len(bad),
